@@ -396,6 +396,14 @@ def stress_corpus():
         ("error_last_statement_no_terminator", b"cmd a;\n<X@tcsh> = {{{ x }}}"),
         ("error_inside_multiline_command_spec", b"cmd <S>;\n<S@bash> = foo {{{ multi\n  line\n }}} bar\n  baz;\n"),
         ("two_errors_at_once", b"cmd (a \"1\" | a \"2\") <D>;\n<D> = x;\n<D> = y;\n<E@nosuchshell> = {{{ z }}};\n"),
+    ] + [
+        # diagnostics on long lines full of multi-byte text, shown on a terminal (items named tty_* run with isatty(2) = 1):
+        # any windowing / wrapping / colouring of the quoted source line must respect character boundaries
+        ("tty_long_nonascii_line_%d" % off,
+         ("cmd " + " ".join("w%d \"\u00e4\u00f6\u00fc\u65e5\u672c\u8a9e %d\"" % (i, i) for i in range(off)) + " <UNDEFINED%d> " % off +
+          " ".join("v%d \"\u00df\u00e9\u4e2d\u6587 %d\"" % (i, i) for i in range(12)) + ";\n<UNUSED> = y \"x\";\n").encode("utf-8"))
+        for off in (1, 3, 4, 5, 6, 7, 9, 12, 20)
+    ] + [
         ("wide_chars_before_error", "cmd 日本語 \"説明\" <UNDEFINED>;\n<UNUSED> = ü;\n".encode()),
     ]
     return items
